@@ -269,6 +269,39 @@ func leanOfGoName(p *pkg, g string) (string, bool) {
 }
 
 func typeOfExpr(p *pkg, e ast.Expr) (ty, bool) {
+	if ft, ok := e.(*ast.FuncType); ok {
+		// func(P…) (T, error) / func(P…) error: a parameter the translated function may call. Lean: P → … → GoM T.
+		var ps []string
+		for _, fl := range ft.Params.List {
+			t, ok := typeOfExpr(p, fl.Type)
+			if !ok {
+				return ty{}, false
+			}
+			n := len(fl.Names)
+			if n == 0 {
+				n = 1
+			}
+			for i := 0; i < n; i++ {
+				ps = append(ps, t.lean)
+			}
+		}
+		if ft.Results == nil || len(ft.Results.List) == 0 || len(ft.Results.List) > 2 {
+			return ty{}, false
+		}
+		last := ft.Results.List[len(ft.Results.List)-1]
+		if goTypeName(p, last.Type) != "error" {
+			return ty{}, false
+		}
+		res := ty{"Unit", "unit"}
+		if len(ft.Results.List) == 2 {
+			t, ok := typeOfExpr(p, ft.Results.List[0].Type)
+			if !ok {
+				return ty{}, false
+			}
+			res = t
+		}
+		return ty{"(" + strings.Join(append(ps, "GoM "+res.lean), " → ") + ")", "func\x00" + res.lean + "\x00" + res.gon}, true
+	}
 	g := goTypeName(p, e)
 	l, ok := leanOfGoName(p, g)
 	for name := range structTable { // a pointer to a modelled struct is the struct value (nil is not modelled)
@@ -666,6 +699,13 @@ func (f *fn) call(x *ast.CallExpr) ex {
 			return ex{"([] : " + t.lean + ")", true, t} // an ordered builder (see findBuilders): filled by appending
 		}
 		fail(x.Pos(), "make other than make(T, 0, cap) or an ordered builder")
+	}
+	if id, ok := x.Fun.(*ast.Ident); ok {
+		if v, isVar := f.lookup(id.Name); isVar && strings.HasPrefix(v.t.gon, "func\x00") {
+			parts := strings.SplitN(v.t.gon, "\x00", 3)
+			codes, _, _ := f.args(x.Args)
+			return impure("("+v.lean+" "+strings.Join(codes, " ")+")", ty{parts[1], parts[2]})
+		}
 	}
 	if name != "" {
 		if _, isVar := f.lookup(strings.SplitN(name, ".", 2)[0]); !isVar {
